@@ -301,3 +301,30 @@ def minimal(t):
     if t == HT.KEY_UPDATE:
         return bytes([t, 0, 0, 1, 0])
     return bytes([t, 0, 0, 0])
+
+
+def digest(c, strict=True):
+    """observable + internal state of a tls.Context for "a refused message changes nothing":
+    weak   = handshake state and the traffic secrets it holds
+    strict = + key-schedule generation / secret, transcript hash(es), pending secrets, negotiated flags,
+               peer certificate / certificate request presence, reassembly buffer"""
+    d = {"state": c.state.name, "enc_key": c._enc_key, "dec_key": c._dec_key}
+    if strict:
+        ks = c.key_schedule
+        psk = c._key_schedule_psk
+        d.update(
+            generation=None if ks is None else ks.generation,
+            secret=None if ks is None else bytes(ks.secret),
+            transcript=None if ks is None else ks.hash.copy().finalize(),
+            psk_transcript=None if psk is None else psk.hash.copy().finalize(),
+            proxy=c._key_schedule_proxy is not None,
+            next_dec_key=getattr(c, "_next_dec_key", None),
+            resumed=c._session_resumed, early_data=c.early_data_accepted, alpn=c.alpn_negotiated,
+            peer_certificate=c._peer_certificate is not None, certificate_request=c._certificate_request is not None,
+            receive_buffer=bytes(c._receive_buffer),
+        )
+    return d
+
+
+def digest_diff(a, b):
+    return sorted(k for k in a if a[k] != b.get(k))
